@@ -36,6 +36,7 @@ func (matcher *requestResponseMatcher) registerRequest(ident string, request *ht
 		},
 	}
 
+	verifAwaitLock(&matcher.registerLock, "http.registerRequest.lock")
 	matcher.registerLock.Lock()
 	defer matcher.registerLock.Unlock()
 	if response, found := matcher.openMessagesMap.LoadAndDelete(ident); found {
@@ -47,6 +48,7 @@ func (matcher *requestResponseMatcher) registerRequest(ident string, request *ht
 		return matcher.preparePair(&requestHTTPMessage, responseHTTPMessage, protoMinor)
 	}
 
+	verifYield("http.registerRequest.store")
 	matcher.openMessagesMap.Store(ident, &requestHTTPMessage)
 	return nil
 }
@@ -62,6 +64,7 @@ func (matcher *requestResponseMatcher) registerResponse(ident string, response *
 		},
 	}
 
+	verifAwaitLock(&matcher.registerLock, "http.registerResponse.lock")
 	matcher.registerLock.Lock()
 	defer matcher.registerLock.Unlock()
 	if request, found := matcher.openMessagesMap.LoadAndDelete(ident); found {
@@ -73,6 +76,7 @@ func (matcher *requestResponseMatcher) registerResponse(ident string, response *
 		return matcher.preparePair(requestHTTPMessage, &responseHTTPMessage, protoMinor)
 	}
 
+	verifYield("http.registerResponse.store")
 	matcher.openMessagesMap.Store(ident, &responseHTTPMessage)
 	return nil
 }
